@@ -191,8 +191,9 @@ Print Assumptions C09_length_refines_wellformed.
 
 (* ---------- receivers ---------- *)
 
-(* every receiver other than undefined (and null for substr) is converted by 9.10 + 9.8 *)
-Theorem C09_generic_receiver : forall m r, r <> RUndef -> (m = MSubstr -> r <> RNull) ->
+(* every receiver other than undefined is converted by 9.10 + 9.8, in every method
+   (null is rejected everywhere, substr included after dc0085d) *)
+Theorem C09_generic_receiver : forall m r, r <> RUndef ->
   this_gostring m r = option_map dec16 (this_string r).
 Proof. exact generic_receiver. Qed.
 Print Assumptions C09_generic_receiver.
@@ -253,11 +254,6 @@ Theorem C09_undefined_this_refuted :     (* String.prototype.trim.call(undefined
   call_spec MTrim RUndef [] = Some (VErr 6) /\ call_model MTrim RUndef [] <> Some (VErr 6).
 Proof. vm_compute. split; [reflexivity|discriminate]. Qed.
 Print Assumptions C09_undefined_this_refuted.
-
-Theorem C09_substr_null_refuted :        (* String.prototype.substr.call(null, 1) is "ull" *)
-  exists p, call_spec MSubstr RNull [p] = Some (VErr 6) /\ call_model MSubstr RNull [p] = Some (VStr [117; 108; 108]).
-Proof. exists (n 1). vm_compute. split; reflexivity. Qed.
-Print Assumptions C09_substr_null_refuted.
 
 (* positions *)
 Theorem C09_lastIndexOf_nan_refuted :    (* "abcabc".lastIndexOf("c", NaN): -1 instead of 5 *)
@@ -344,6 +340,6 @@ Proof. vm_compute. repeat split; discriminate. Qed.
 Example C09_order_hyp_met : MIndexOf <> MSplit /\ MIndexOf <> MLastIndexOf /\
   plan_spec MIndexOf [EPlain AUndef; EPlain AUndef] = [(0%nat, KS); (1%nat, KN)] /\ [97] <> (@nil Z).
 Proof. repeat split; discriminate. Qed.
-Example C09_receiver_hyp_met : RNumR 5 <> RUndef /\ (MTrim = MSubstr -> RNumR 5 <> RNull) /\
-  this_gostring MTrim (RNumR 5) = Some [53].
+Example C09_receiver_hyp_met : RNumR 5 <> RUndef /\ this_gostring MTrim (RNumR 5) = Some [53] /\
+  call_model MSubstr RNull [n 1] = Some (VErr 6).
 Proof. repeat split; try discriminate. Qed.
